@@ -78,10 +78,13 @@ def run(ctx):
         ctx.guard("callback-table", callback_table_cxx, ctx, crate, cx)
         ctx.guard("alloc-symmetry", alloc_symmetry_cxx, ctx, crate, cx)
         ctx.guard("alloc-symmetry", string_assignment, ctx, cx)
+        ctx.guard("alloc-symmetry", refcount_protocol_cxx, ctx, crate, cx)
+        ctx.guard("alloc-symmetry", string_lifecycle_cxx, ctx, cx)
     ctx.guard("transmute-layout", transmute_layout, ctx, crate)
     ctx.guard("ffi-safe", ffi_safe, ctx, crate)
     ctx.guard("callback-table", callback_table_rust, ctx, crate, crs)
     ctx.guard("alloc-symmetry", alloc_symmetry_rust, ctx, crate, crs)
+    ctx.guard("alloc-symmetry", refcount_protocol_rust, ctx, crate, crs)
     ctx.guard("provider-mapping", provider_mapping, ctx, crate, crs)
     ctx.guard("foreign-slices", foreign_slices, ctx, crate, crs)
 
@@ -1079,3 +1082,400 @@ def _source_fields(b, op, crate, depth=0, seen=None):
                 for o in r["ops"]:
                     names |= _source_fields(b, o, crate, depth + 1, seen)
     return names
+
+
+# ------------------------------------------------------------------------------------------------
+# C++ header: the shared-buffer (reference counting / copy-on-write) protocol of resolvo::Vector<T>
+def _kids(n):
+    return [x for x in n.get("inner", []) if isinstance(x, dict)]
+
+
+def _strip(n):
+    while n.get("kind") in ("ImplicitCastExpr", "ParenExpr", "ExprWithCleanups", "MaterializeTemporaryExpr", "ConstantExpr") and _kids(n):
+        n = _kids(n)[0]
+    return n
+
+
+def _member_of_this(n, name):
+    """`inner->name` / `this->inner->name` (through `this`) - the member `name` of this vector's own header."""
+    n = _strip(n)
+    if n.get("kind") not in ("MemberExpr", "CXXDependentScopeMemberExpr") or (n.get("member") or n.get("name")) != name:
+        return False
+    base = _strip(_kids(n)[0]) if _kids(n) else {}
+    return base.get("kind") == "MemberExpr" and base.get("name") == "inner" and any(k.get("kind") == "CXXThisExpr" for k in _kids(base))
+
+
+def _is_inner_of(n, who):
+    """`who.inner` for a parameter / local `who`, or `inner` of this when who is None."""
+    n = _strip(n)
+    if (n.get("member") or n.get("name")) != "inner":
+        return False
+    ks = _kids(n)
+    if who is None:
+        return n.get("kind") == "MemberExpr" and any(k.get("kind") == "CXXThisExpr" for k in ks)
+    return bool(ks) and (_strip(ks[0]).get("referencedDecl") or {}).get("name") == who
+
+
+def _facts_at(fn, pred):
+    """Like _facts_at_call, for the first statement satisfying `pred` (a predicate on a sub-tree)."""
+    body = [x for x in _kids(fn) if x.get("kind") == "CompoundStmt"]
+    if not body:
+        return None
+
+    def has(st):
+        return bool(cxx.walk(st, pred))
+
+    def walk(stmt, facts):
+        k = stmt.get("kind")
+        if k == "CompoundStmt":
+            cur = list(facts)
+            for st in _kids(stmt):
+                if has(st):
+                    return walk(st, cur)
+                if st.get("kind") == "IfStmt":
+                    parts = _kids(st)
+                    if len(parts) == 2 and _always_exits(parts[1]):
+                        _conj(False, parts[0], cur)
+            return None
+        if k == "IfStmt":
+            parts = _kids(stmt)
+            if len(parts) >= 2 and has(parts[1]):
+                cur = list(facts)
+                _conj(True, parts[0], cur)
+                return walk(parts[1], cur)
+            if len(parts) == 3 and has(parts[2]):
+                cur = list(facts)
+                _conj(False, parts[0], cur)
+                return walk(parts[2], cur)
+            return facts if has(parts[0]) else None
+        return facts
+    return walk(body[0], [])
+
+
+def _cmp_fact(pol, e, lhs_pred, ops_true, ops_false):
+    """fact `lhs <op> literal` with lhs satisfying lhs_pred; returns True if (op, literal) is in ops_true (pol) / ops_false (!pol)."""
+    e = _strip(e)
+    ks = _kids(e)
+    if e.get("kind") != "BinaryOperator" or len(ks) != 2:
+        return False
+    a, b, op = ks[0], ks[1], e.get("opcode")
+    if not lhs_pred(a):
+        if lhs_pred(b):
+            a, b = b, a
+            op = {"<": ">", ">": "<", "<=": ">=", ">=": "<="}.get(op, op)
+        else:
+            return False
+    lit = _strip(b)
+    v = lit.get("value") if lit.get("kind") == "IntegerLiteral" else expr_str(b)
+    return (op, str(v)) in (ops_true if pol else ops_false)
+
+
+def _is_refcount_incr(n):
+    n = _strip(n)
+    if n.get("kind") == "UnaryOperator" and n.get("opcode") == "++" and _kids(n) and _member_of_this(_kids(n)[0], "refcount"):
+        return True
+    if n.get("kind") == "CompoundAssignOperator" and n.get("opcode") == "+=" and _kids(n) and _member_of_this(_kids(n)[0], "refcount"):
+        return True
+    if n.get("kind") in ("CallExpr", "CXXMemberCallExpr"):
+        for m in cxx.walk(n, lambda y: y.get("kind") in ("MemberExpr", "CXXDependentScopeMemberExpr") and (y.get("member") or y.get("name")) == "fetch_add"):
+            if _kids(m) and _member_of_this(_kids(m)[0], "refcount"):
+                return True
+    return False
+
+
+def refcount_protocol_cxx(ctx, crate, cx):
+    """Memory safety of the copy-on-write vector rests on a small protocol (every clause is a necessary condition: breaking it is a
+    double free, a use after free, or a write into a buffer another Vector still reads):
+      shares-increment      whoever makes `inner` alias another vector's buffer (copy constructor, copy assignment) increments the count,
+                            and only when it is positive (the static empty vector is never counted)
+      free-at-zero          drop() frees only on the path where the decrement brought the count to zero, and destroys the elements first
+      move-keeps-one-owner  move assignment exchanges the two handles (or clears the source): no buffer ends up with two uncounted owners
+      detach                returns early only for a unique buffer that is large enough; otherwise copies elements 0..size into the new
+                            buffer (each to its own index, size counted per element) and adopts it
+      clear                 edits the buffer in place only when it is the unique owner"""
+    R = "alloc-symmetry"
+    H = "cpp/include/resolvo_vector.h"
+    tmpl = [o for o in cx["ast"]["vector"] if o.get("kind") == "ClassTemplateDecl"]
+    rec = [x for x in tmpl[0].get("inner", []) if x.get("kind") == "CXXRecordDecl"][0]
+    fns = [m for m in _kids(rec) if m.get("kind") in ("CXXMethodDecl", "CXXConstructorDecl") and [x for x in _kids(m) if x.get("kind") == "CompoundStmt"]]
+    # --- shares-increment
+    n_share = 0
+    for m in fns:
+        params = [(p_.get("name"), p_.get("type", {}).get("qualType", "")) for p_ in _kids(m) if p_.get("kind") == "ParmVarDecl"]
+        cref = [nm for nm, ty in params if ty.replace(" ", "") in ("constVector<T>&", "constresolvo::Vector<T>&")]
+        if not cref:
+            continue
+        who = cref[0]
+        aliases = False
+        for ci in cxx.walk(m, lambda y: y.get("kind") == "CXXCtorInitializer" and (y.get("anyInit") or {}).get("name") == "inner"):
+            if cxx.walk(ci, lambda y: _is_inner_of(y, who)):
+                aliases = True
+        for bo in cxx.walk(m, lambda y: y.get("kind") == "BinaryOperator" and y.get("opcode") == "="):
+            ks = _kids(bo)
+            if len(ks) == 2 and _is_inner_of(ks[0], None) and cxx.walk(ks[1], lambda y: _is_inner_of(y, who)):
+                aliases = True
+        if not aliases:
+            continue
+        n_share += 1
+        label = ("copy-constructor" if m.get("kind") == "CXXConstructorDecl" else m.get("name"))
+        incs = cxx.walk(m, _is_refcount_incr)
+        facts = _facts_at(m, _is_refcount_incr) if incs else None
+        guarded = facts is not None and any(_means_positive_refcount(pol, e) for pol, e in facts)
+        ctx.ob(R, "resolvo::Vector::%s" % label, "sharing-a-buffer-increments-its-count", bool(incs) and guarded, H,
+               "after `inner` is taken from `%s.inner` the reference count is incremented, behind `refcount > 0` (increments: %d, facts: %s)"
+               % (who, len(incs), ", ".join(("" if pol else "!") + expr_str(e) for pol, e in (facts or []))[:120]))
+    ctx.floor(R, "sites that share another vector's buffer", n_share, 2)
+    # --- free-at-zero
+    for m in fns:
+        if m.get("name") != "drop":
+            continue
+        facts = _facts_at_call(m, "resolvo_vector_free") or []
+
+        def decr(n):
+            n = _strip(n)
+            if n.get("kind") == "UnaryOperator" and n.get("opcode") == "--" and _kids(n) and _member_of_this(_kids(n)[0], "refcount"):
+                return "post" if n.get("isPostfix") else "pre"
+            if n.get("kind") in ("CallExpr", "CXXMemberCallExpr") and cxx.walk(n, lambda y: (y.get("member") or y.get("name")) == "fetch_sub"):
+                return "post"
+            return None
+        zero = False
+        for pol, e in facts:
+            if _cmp_fact(pol, e, lambda a: decr(a) == "pre", {("==", "0"), ("<=", "0"), ("<", "1")}, {("!=", "0"), (">", "0"), (">=", "1")}):
+                zero = True
+            if _cmp_fact(pol, e, lambda a: decr(a) == "post", {("==", "1"), ("<=", "1"), ("<", "2")}, {("!=", "1"), (">", "1"), (">=", "2")}):
+                zero = True
+        ctx.ob(R, "resolvo::Vector::drop", "free-only-when-the-count-reaches-zero", zero, H,
+               "resolvo_vector_free is reached only where the decrement of refcount produced zero (facts: %s)"
+               % ", ".join(("" if pol else "!") + expr_str(e) for pol, e in facts)[:160])
+        # destructors run before the memory is released, over [begin, end)
+        order_ok = False
+        for cs in cxx.walk(m, lambda y: y.get("kind") == "CompoundStmt"):
+            sts = _kids(cs)
+            d_idx = [k for k, st in enumerate(sts) if cxx.walk(st, lambda y: y.get("kind") == "CXXPseudoDestructorExpr")]
+            f_idx = [k for k, st in enumerate(sts) if _contains_call(st, "resolvo_vector_free")]
+            if d_idx and f_idx and max(d_idx) < min(f_idx) and sts[d_idx[0]].get("kind") in ("ForStmt", "WhileStmt", "CXXForRangeStmt", "CallExpr"):
+                order_ok = True
+        ctx.ob(R, "resolvo::Vector::drop", "elements-destroyed-before-the-buffer-is-freed", order_ok, H,
+               "the element destructors run in a loop that precedes resolvo_vector_free in the same block")
+    # --- move assignment
+    for m in fns:
+        sig = m.get("type", {}).get("qualType", "")
+        if m.get("name") != "operator=" or "&&" not in sig:
+            continue
+        who = [p_.get("name") for p_ in _kids(m) if p_.get("kind") == "ParmVarDecl"][0]
+        swaps = False
+        for c in cxx.walk(m, lambda y: y.get("kind") == "CallExpr"):
+            if cxx.walk(c, lambda y: y.get("kind") in ("UnresolvedLookupExpr", "DeclRefExpr") and ((y.get("referencedDecl") or {}).get("name") or y.get("name")) in ("swap", "exchange")):
+                if cxx.walk(c, lambda y: _is_inner_of(y, None)) and cxx.walk(c, lambda y: _is_inner_of(y, who)):
+                    swaps = True
+        takes = resets = False
+        for bo in cxx.walk(m, lambda y: y.get("kind") == "BinaryOperator" and y.get("opcode") == "="):
+            ks = _kids(bo)
+            if len(ks) == 2 and _is_inner_of(ks[0], None) and cxx.walk(ks[1], lambda y: _is_inner_of(y, who)):
+                takes = True
+            if len(ks) == 2 and _is_inner_of(ks[0], who):
+                resets = True
+        ctx.ob(R, "resolvo::Vector::operator=", "move-assignment-keeps-one-owner-per-buffer", swaps or (takes and resets), H,
+               "move assignment exchanges `inner` with the source (or takes it and re-points the source): swaps=%s takes=%s resets-source=%s" % (swaps, takes, resets))
+    # --- detach
+    for m in fns:
+        if m.get("name") != "detach":
+            continue
+        body = [x for x in _kids(m) if x.get("kind") == "CompoundStmt"][0]
+        param = [p_.get("name") for p_ in _kids(m) if p_.get("kind") == "ParmVarDecl"]
+        early = None
+        for st in _kids(body):
+            if st.get("kind") == "IfStmt" and len(_kids(st)) == 2 and _always_exits(_kids(st)[1]):
+                early = st
+                break
+        ok_early = early is None
+        if early is not None:
+            fs = []
+            _conj(True, _kids(early)[0], fs)
+            uniq = any(_cmp_fact(pol, e, lambda a: _member_of_this(a, "refcount"), {("==", "1")}, {("!=", "1")}) for pol, e in fs)
+
+            def is_param(a):
+                return (_strip(a).get("referencedDecl") or {}).get("name") in param
+            fits = False
+            for pol, e in fs:
+                e_ = _strip(e)
+                ks = _kids(e_)
+                if e_.get("kind") == "BinaryOperator" and len(ks) == 2:
+                    op = e_.get("opcode")
+                    if is_param(ks[0]) and _member_of_this(ks[1], "capacity") and ((pol and op in ("<=", "<")) or (not pol and op in (">", ">="))):
+                        fits = True
+                    if is_param(ks[1]) and _member_of_this(ks[0], "capacity") and ((pol and op in (">=", ">")) or (not pol and op in ("<", "<="))):
+                        fits = True
+            ok_early = uniq and fits
+        ctx.ob(R, "resolvo::Vector::detach", "keeps-the-buffer-only-if-unique-and-large-enough", ok_early, H,
+               "the early return of detach requires refcount == 1 and expected_capacity <= capacity")
+        loops = [st for st in _kids(body) if st.get("kind") == "ForStmt"]
+        ok_copy = False
+        detail = "no copy loop"
+        for lp in loops:
+            ks = lp.get("inner", [])
+            init = ks[0] if ks and isinstance(ks[0], dict) else {}
+            cond = next((x for x in ks[1:] if isinstance(x, dict) and x.get("kind") == "BinaryOperator"), None)
+            var = next((v.get("name") for v in cxx.walk(init, lambda y: y.get("kind") == "VarDecl")), None)
+            starts0 = any(_strip(x).get("value") == "0" for x in cxx.walk(init, lambda y: y.get("kind") == "IntegerLiteral"))
+            cond_ok = False
+            if cond is not None and len(_kids(cond)) == 2:
+                a, b_ = _kids(cond)
+                a_var = (_strip(a).get("referencedDecl") or {}).get("name") == var
+                cond_ok = (cond.get("opcode") == "<" and a_var and _member_of_this(b_, "size")) or \
+                          (cond.get("opcode") == "!=" and a_var and _member_of_this(b_, "size"))
+            news = cxx.walk(lp, lambda y: y.get("kind") == "CXXNewExpr")
+            new_ok = False
+            for nw in news:
+                subs = cxx.walk(nw, lambda y: y.get("kind") == "ArraySubscriptExpr")
+                src_i = any((_strip(_kids(sx)[1]).get("referencedDecl") or {}).get("name") == var for sx in subs if len(_kids(sx)) == 2)
+                plus = [bo for bo in cxx.walk(nw, lambda y: y.get("kind") == "BinaryOperator" and y.get("opcode") == "+")]
+                dst_i = any((_strip(_kids(bo)[1]).get("referencedDecl") or {}).get("name") == var for bo in plus if len(_kids(bo)) == 2)
+                new_ok = new_ok or (src_i and dst_i)
+            counts = bool(cxx.walk(lp, lambda y: y.get("kind") == "UnaryOperator" and y.get("opcode") == "++" and _kids(y) and
+                                   (_strip(_kids(y)[0]).get("member") or _strip(_kids(y)[0]).get("name")) == "size"))
+            detail = "var=%s starts-at-0=%s bound-is-size=%s element-i-to-slot-i=%s size-counted=%s" % (var, starts0, cond_ok, new_ok, counts)
+            if starts0 and cond_ok and new_ok and counts:
+                ok_copy = True
+        adopts = False
+        for bo in cxx.walk(body, lambda y: y.get("kind") == "BinaryOperator" and y.get("opcode") == "="):
+            ks = _kids(bo)
+            if len(ks) == 2 and cxx.walk(ks[0], lambda y: y.get("kind") == "CXXThisExpr") and _strip(ks[0]).get("kind") == "UnaryOperator":
+                adopts = True
+        ctx.ob(R, "resolvo::Vector::detach", "copies-every-element-and-adopts-the-copy", ok_copy and adopts, H,
+               "elements 0..size are copy-constructed into the same index of the new buffer, its size is counted per element, and "
+               "*this takes the new buffer (%s, adopts=%s)" % (detail, adopts))
+    # --- clear
+    for m in fns:
+        if m.get("name") != "clear":
+            continue
+
+        def size_write(y):
+            if y.get("kind") == "BinaryOperator" and y.get("opcode") == "=" and _kids(y) and _member_of_this(_kids(y)[0], "size"):
+                return True
+            return y.get("kind") == "CXXPseudoDestructorExpr"
+        facts = _facts_at(m, size_write)
+        uniq = facts is not None and any(_cmp_fact(pol, e, lambda a: _member_of_this(a, "refcount"), {("==", "1")}, {("!=", "1")}) for pol, e in facts)
+        ctx.ob(R, "resolvo::Vector::clear", "in-place-edit-only-if-unique", uniq, H,
+               "clear() destroys elements / resets size in place only on the path where refcount == 1 (facts: %s)"
+               % ", ".join(("" if pol else "!") + expr_str(e) for pol, e in (facts or []))[:120])
+
+
+def string_lifecycle_cxx(ctx, cx):
+    """resolvo::String owns one counted handle created and released by the Rust side: every constructor obtains its handle from
+    resolvo_string_from_bytes / resolvo_string_clone (or delegates to a constructor that does), the destructor releases it with
+    resolvo_string_drop, an assignment that drops the old handle installs a new one before returning, and move assignment
+    exchanges the handles.  A constructor that copies the raw handle, or a missing re-initialisation, is a double free."""
+    R = "alloc-symmetry"
+    H = "cpp/include/resolvo_string.h"
+    recs = []
+    for o in cx["ast"].get("string", []):
+        recs += cxx.walk(o, lambda n: n.get("kind") == "CXXRecordDecl" and n.get("name") == "String")
+    recs = [r_ for r_ in recs if cxx.walk(r_, lambda n: n.get("kind") == "CXXMethodDecl")]
+    if not recs:
+        ctx.ob(R, "resolvo::String", "record-found", False, H, "String record not in the AST dump")
+        return
+    rec = recs[0]
+
+    def calls_with_this(m, names):
+        for c in cxx.walk(m, lambda y: y.get("kind") == "CallExpr"):
+            ks = _kids(c)
+            if not ks:
+                continue
+            nm = [((x.get("referencedDecl") or {}).get("name") or x.get("name")) for x in cxx.walk(ks[0], lambda y: y.get("kind") in ("DeclRefExpr", "UnresolvedLookupExpr"))]
+            if any(n_ in names for n_ in nm) and len(ks) > 1 and _strip(ks[1]).get("kind") == "CXXThisExpr":
+                return True
+        return False
+    n_ctor = 0
+    for m in _kids(rec):
+        if m.get("kind") != "CXXConstructorDecl" or not [x for x in _kids(m) if x.get("kind") == "CompoundStmt"] or m.get("isImplicit"):
+            continue
+        n_ctor += 1
+        delegates = bool(cxx.walk(m, lambda y: y.get("kind") == "CXXCtorInitializer" and y.get("delegatingInit") is not None or
+                                  (y.get("kind") == "CXXCtorInitializer" and "anyInit" not in y and "baseInit" not in y)))
+        inits = calls_with_this(m, ("resolvo_string_from_bytes", "resolvo_string_clone"))
+        raw = bool(cxx.walk(m, lambda y: y.get("kind") == "CXXCtorInitializer" and (y.get("anyInit") or {}).get("name") == "inner"))
+        sig = m.get("type", {}).get("qualType", "")
+        ctx.ob(R, "resolvo::String::String", "handle-comes-from-the-library:%s" % sig.replace(" ", ""), (inits or delegates) and not (raw and not inits), H,
+               "the constructor obtains its handle from resolvo_string_from_bytes / resolvo_string_clone (delegates=%s, raw member init=%s)" % (delegates, raw))
+    ctx.floor(R, "String constructors", n_ctor, 4)
+    for m in _kids(rec):
+        if m.get("kind") == "CXXDestructorDecl" and [x for x in _kids(m) if x.get("kind") == "CompoundStmt"]:
+            ctx.ob(R, "resolvo::String::~String", "destructor-releases-the-handle", calls_with_this(m, ("resolvo_string_drop",)), H,
+                   "the destructor hands `this` to resolvo_string_drop")
+    for m in _kids(rec):
+        if m.get("kind") != "CXXMethodDecl" or m.get("name") != "operator=":
+            continue
+        body = [x for x in _kids(m) if x.get("kind") == "CompoundStmt"]
+        if not body:
+            continue
+        sig = m.get("type", {}).get("qualType", "")
+        sts = _kids(body[0])
+        d_idx = [k for k, st in enumerate(sts) if _contains_call(st, "resolvo_string_drop")]
+        if d_idx:
+            after = sts[d_idx[0] + 1:]
+            re_init = any(_contains_call(st, "resolvo_string_clone") or _contains_call(st, "resolvo_string_from_bytes") for st in after[:1])
+            ctx.ob(R, "resolvo::String::operator=", "dropped-handle-is-replaced-at-once:%s" % sig.replace(" ", ""), re_init, H,
+                   "the statement after resolvo_string_drop(this) installs a new handle (clone / from_bytes)")
+        if "&&" in sig:
+            who = [p_.get("name") for p_ in _kids(m) if p_.get("kind") == "ParmVarDecl"][0]
+            swaps = False
+            for c in cxx.walk(m, lambda y: y.get("kind") == "CallExpr"):
+                if cxx.walk(c, lambda y: ((y.get("referencedDecl") or {}).get("name") or y.get("name")) in ("swap", "exchange")) and \
+                        cxx.walk(c, lambda y: _is_inner_of(y, None)) and cxx.walk(c, lambda y: _is_inner_of(y, who)):
+                    swaps = True
+            ctx.ob(R, "resolvo::String::operator=", "move-assignment-keeps-one-owner-per-handle", swaps, H,
+                   "move assignment exchanges `inner` with the source")
+
+
+def refcount_protocol_rust(ctx, crate, crs):
+    """Rust side of the shared-buffer protocol (same clauses as the C++ header): the buffer is released only by the owner whose
+    decrement observed 1, and detach() keeps the current buffer only if it is unique and large enough."""
+    R = "alloc-symmetry"
+    VEC = "resolvo_cpp::vector::Vector"
+    for b in crate.bodies:
+        if b.d.get("impl_trait") == "std::ops::Drop" and b.d.get("impl_adt") == VEC:
+            frees = [i for i, t in b.calls() if t.get("f") and t["f"]["name"] == "drop_inner"]
+            ok = False
+            for c in q.conds(b, crs):
+                if c.kind == "cmp" and c.op == "Eq":
+                    for x, y in ((c.a, c.b), (c.b, c.a)):
+                        if y.get("k") == "const" and y.get("v") == 1:
+                            d, _ = q.origin_thru(b, x, transparent=set())
+                            if d["k"] == "call" and d["t"].get("f") and d["t"]["f"]["name"] == "fetch_sub" and frees and \
+                                    all(q.edge_dominates(b, c.bb, c.target(True), i) for i in frees):
+                                ok = True
+            ctx.ob(R, b.key, "buffer-released-only-by-the-last-owner", ok and bool(frees), b.loc(),
+                   "drop_inner is reached only on the edge where fetch_sub returned 1")
+    b = body_by_key(crate, VEC + "::detach")
+    if b is None:
+        ctx.ob(R, VEC + "::detach", "exists", False, "", "Vector::detach not found")
+        return
+    wc = [i for i, t in b.calls() if t.get("f") and t["f"]["name"] in ("with_capacity", "alloc_with_capacity")]
+    rets = [i for i, t in b.terms("return")]
+    uniq_edge = fits_edge = None
+    for c in q.conds(b, crs):
+        if c.kind != "cmp":
+            continue
+        for x, y, op in ((c.a, c.b, c.op), (c.b, c.a, {"Lt": "Gt", "Gt": "Lt", "Le": "Ge", "Ge": "Le"}.get(c.op, c.op))):
+            if y.get("k") == "const" and y.get("v") == 1 and op in ("Ne", "Eq"):
+                lv = q.leaves(b, x)
+                if any("refcount" in l for l in lv):
+                    uniq_edge = (c.bb, c.target(op == "Eq"))
+            if op in ("Le", "Lt", "Ge", "Gt"):
+                lx, ly = q.leaves(b, x), q.leaves(b, y)
+                if "arg:2" in lx and any("capacity" in l for l in ly) and op in ("Le", "Lt"):
+                    fits_edge = (c.bb, c.target(True))
+                if "arg:2" in ly and any("capacity" in l for l in lx) and op in ("Ge", "Gt"):
+                    fits_edge = (c.bb, c.target(True))
+    ok = False
+    detail = "unique-test=%s fits-test=%s" % (uniq_edge, fits_edge)
+    if wc and rets and uniq_edge and fits_edge:
+        S = b.succs()
+        leave_copy = [(i, y) for i in wc for y in S[i]]
+        # a return that does not go through the copy must have passed both edges
+        r1 = q.reach_cut(b, leave_copy + [uniq_edge])
+        r2 = q.reach_cut(b, leave_copy + [fits_edge])
+        ok = not (set(rets) & r1) and not (set(rets) & r2)
+    ctx.ob(R, b.key, "keeps-the-buffer-only-if-unique-and-large-enough", ok, b.loc(),
+           "every path through detach that does not allocate a new buffer has seen refcount == 1 and new_capacity <= capacity (%s)" % detail)
